@@ -75,7 +75,11 @@ func maskOfGetter(f *ssa.Function) (idx, mask int64, whenSet bool, ok bool) {
 
 func ruleL3(p *Prog, r *Report) {
 	const R = "L3"
-	pairs := []struct{ set, get string; getWhenSet bool; state string }{
+	pairs := []struct {
+		set, get   string
+		getWhenSet bool
+		state      string
+	}{
 		{"setRoot", "isRoot", true, "extraData"},
 		{"setHasPointers", "hasPointers", true, "HasPointer"},
 		{"setNoSizeLimit", "hasSizeLimit", false, "anySize"},
@@ -221,7 +225,10 @@ func ruleL3(p *Prog, r *Report) {
 		}
 	}
 	// V1 decoders consult the state-bearing flags
-	for _, d := range []struct{ fn string; needs []string }{
+	for _, d := range []struct {
+		fn    string
+		needs []string
+	}{
 		{"newArrayDataSlabFromDataV1", []string{"isRoot", "hasNextSlabID", "hasInlinedSlabs"}},
 		{"newMapDataSlabFromDataV1", []string{"isRoot", "hasNextSlabID", "hasInlinedSlabs", "hasSizeLimit"}},
 		{"newArrayMetaDataSlabFromDataV1", []string{"isRoot"}},
